@@ -83,5 +83,17 @@ PROPS["C20"] = {
     "assumptions": ["identity converter; lossless renaming converters are future work of this check (see DESIGN)"],
 }
 
+PROPS["C08"] = {
+    "domains": [{"name": "upd", "n_quick": 800, "n_thorough": 20000},
+                {"name": "typ", "n_quick": 800, "n_thorough": 20000},
+                {"name": "set", "n_quick": 1500, "n_thorough": 20000},
+                {"name": "flt", "n_quick": 500, "n_thorough": 10000},
+                {"name": "rec", "n_quick": 1000, "n_thorough": 20000}],
+    "lean_modules": ["SMD.Properties.C08"],
+    "theorems": [],
+    "assumptions": ["partial: the model has value semantics, so 'arguments unchanged' is decided observationally by deep snapshots (canonical encodings of live object, submitted object, managed fields incl. every trie, set operands) taken before and after every call of every domain; the theorems cover the conversion-failure clause for every converter and failure position"],
+    "explanation": "partial by proof: aliasing of arbitrary Go data is a runtime matter that the value-semantic model cannot exhibit",
+}
+
 HOOK_COMMITS = []
 NOT_APPLICABLE = {}
